@@ -51,9 +51,23 @@ def run(ctx):
             nodes.append(impl.real_parse_ast(f))
         except Exception:  # noqa
             pass
+    # binder shapes: a nested lambda re-binding the SAME variable, with references to the outer variable before and after it; sibling
+    # lambdas; a free occurrence of the variable's name after the lambda; keys rooted at the variable's name — tried with EVERY map
+    targeted = []
+    for f in ["c/any(x: x/t/any(x: x/name eq 'a') and x/a gt 5)", "c/any(x: x/t/any(x: x/name eq 'a') and x eq 5)", "c/all(t: t/k1/any(t: t eq 1) or t/name eq 'b')",
+              "c/any(a: a/b/any(a: a/b eq 1) and a/b eq 2 and a eq b)", "c/any(a: c/any(b: b eq a) and a eq 1) and a eq 2",
+              "c/any(x: c/any(t: c/any(x: x eq t) and x eq t)) and x/a eq t", "c/any(x: x eq 1) and c/any(x: x/a eq 1) and x/a eq 2",
+              "c/any(x: x/a eq 1 and x/t/all(x: x/a eq 2) and x/a eq 3 and x/a/b eq 4)", "x/a eq 0 and c/any(x: x/a eq 1) and x/a eq 2",
+              "c/any(name: name/x/any(date: date eq name) and date eq name)", "p/any(p: p/p/any(p: p/p eq p) and p/p eq p) and p/p eq p"]:
+        try:
+            targeted.append(impl.real_parse_ast(f))
+        except Exception:  # noqa
+            pass
+    nodes += targeted
+    targeted_keys = {enc(x) for x in targeted}
     uniq = list({enc(x): x for x in nodes}.items())
     tabs = [(m, table(m)) for m in MAPS]
-    cases = [(i, w, nd) for (w, nd) in uniq for i in (range(len(MAPS)) if ctx.thorough else [hash(w) % len(MAPS), (hash(w) // 13) % len(MAPS), 8])]
+    cases = [(i, w, nd) for (w, nd) in uniq for i in (range(len(MAPS)) if (ctx.thorough or w in targeted_keys) else [hash(w) % len(MAPS), (hash(w) // 13) % len(MAPS), 8])]
     cases = list({(c[0], c[1]): c for c in cases}.values())
     common.correspond(ctx, "alias-rewrite", cases, real_fn=lambda c: real_alias(MAPS[c[0]], copy.deepcopy(c[2])),
                       model_reqs=lambda c: driver.req("alias", tabs[c[0]][1], c[1]),
@@ -108,7 +122,8 @@ def run(ctx):
 
     return common.finish(
         ctx,
-        rule="random ASTs of depth 0..4 + parsed corpus x 12 alias maps (keys: identifiers, paths, overlapping path/owner keys, built-in function "
+        rule="random ASTs of depth 0..4 + parsed corpus + 11 binder shapes (nested lambdas re-binding the same variable with references to the outer one after the inner lambda, sibling lambdas, free "
+             "occurrences after a lambda) x 12 alias maps (keys: identifiers, paths, overlapping path/owner keys, built-in function "
              "names, named-parameter names, lambda variables; targets: identifiers, paths, calls); input deep-copied and compared after the call; "
              "fresh-name bijection then inverse; non-trivial = the rewritten tree differs from the input",
         assumptions=["alias keys/targets are parsed by the real parser before being handed to the model (the parser is C05's)",
